@@ -346,6 +346,117 @@ Definition qi_output (addr : bytes) (datalen : N) (l : location) : qi_out :=
   else QUtxo.
 
 (* ------------------------------------------------------------------ *)
+(* core/state_processor.go ProcessQiTx, the WHOLE transaction (extension round): the three data
+   guards, the output loop with its shared mutable state (the `addresses` set seeded with the owners
+   of the spent inputs, the flags `conversion` / `wrapping`, `convertAddress`), the wrapping branch
+   that falls through to the ETX / UTXO part before the fork params.QiWrappingChangeBlock
+   (qiWrappingSkipsLocalUTXO), the kQuai hold intervals and the aggregated conversion / wrapping ETX.
+   Not modelled (the harness keeps them satisfied): input checks, fees, gas pool / ETX gas limits,
+   denominations, lock, ETX eligibility, signature. *)
+Record qi_st := mk_qst {
+  q_seen : list bytes;          (* addresses: map[AddressBytes]struct{} (keys are 20 bytes) *)
+  q_conv : bool;                (* conversion *)
+  q_wrap : bool;                (* wrapping *)
+  q_cto : bytes                 (* convertAddress (20 bytes; [] while unset) *)
+}.
+
+Inductive qi_ev :=
+| EvUtxo (idx : N) (owner : bytes)              (* rawdb.CreateUTXO(batch, tx.Hash(), idx, NewUtxoEntry(&txOut)): owner = RAW txOut.Address *)
+| EvEtx (ty : N) (idx : N) (cls : N) (to : bytes).  (* ty 0 = DefaultType, 1 = ConversionType, 2 = WrappingQiType;
+                                                       cls = class of the To object (0 internal / 1 external) *)
+
+Fixpoint mem_key (a : bytes) (s : list bytes) : bool :=
+  match s with [] => false | x :: r => keqb a x || mem_key a r end.
+
+Definition class_of (b : bytes) (l : location) : N :=
+  match bytes_to_address b l with Internal _ => 0 | _ => 1 end.
+
+(* the three guards on tx.Data() at the head of ProcessQiTx (ledger tests do not depend on a location) *)
+Definition qi_data_ok (data : bytes) : bool :=
+  let n := N.of_nat (length data) in
+  if negb (n =? 0) && (negb (n =? MAX_QI_TX_DATA_LENGTH) && negb (n =? 20)) then false
+  else if (n =? 20) && negb (is_quai (to20 data)) then false
+  else if (n =? MAX_QI_TX_DATA_LENGTH) && negb (is_qi (to20 (firstn 20 (skipn 2 data)))) then false
+  else true.
+
+(* one iteration of `for txOutIdx, txOut := range tx.TxOut()`; skip = qiWrappingSkipsLocalUTXO(currentHeader) *)
+Definition qi_step (l : location) (data : bytes) (skip : bool) (st : qi_st) (idx : N) (addr : bytes)
+  : option (qi_st * list qi_ev) :=
+  let a := to20 addr in
+  let dl := N.of_nat (length data) in
+  if mem_key a (q_seen st) then None                       (* Duplicate address in QiTx outputs *)
+  else
+    let here := loc_eqb (location_of a) l in
+    let tail (st' : qi_st) : option (qi_st * list qi_ev) :=
+      if negb here then                                    (* this output creates an ETX *)
+        if negb (is_qi a) then None
+        else Some (st', [EvEtx 0 idx (class_of addr l) a])
+      else Some (st', [EvUtxo idx addr]) in                (* this output creates a normal UTXO *)
+    if here && is_quai a && (dl =? MAX_QI_TX_DATA_LENGTH) then      (* Qi->Quai conversion *)
+      if q_conv st && negb (keqb a (q_cto st)) then None
+      else Some (mk_qst (q_seen st) true (q_wrap st) a, [])         (* delete(addresses, ..); continue *)
+    else if here && is_quai a && (dl =? 20) then                    (* wrapped Qi *)
+      match internal_and_quai (bytes_to_address data l) with        (* ownerContract *)
+      | None => None
+      | Some _ =>
+          let st' := mk_qst (q_seen st) (q_conv st) true a in
+          if skip then Some (st', []) else tail st'                 (* before the fork: falls through *)
+      end
+    else if is_quai a then None
+    else tail (mk_qst (a :: q_seen st) (q_conv st) (q_wrap st) (q_cto st)).
+
+Fixpoint qi_loop (l : location) (data : bytes) (skip : bool) (st : qi_st) (idx : N) (outs : list bytes)
+  : option (qi_st * list qi_ev) :=
+  match outs with
+  | [] => Some (st, [])
+  | o :: r =>
+      match qi_step l data skip st idx o with
+      | None => None
+      | Some (st1, e1) =>
+          match qi_loop l data skip st1 (idx + 1) r with
+          | None => None
+          | Some (st2, e2) => Some (st2, e1 ++ e2)
+          end
+      end
+  end.
+
+(* conversions are refused during the two kQuai hold intervals (prime terminus number) *)
+Definition in_hold (ptn : N) : bool :=
+  ((C16Sites.kawpow_fork_block <=? ptn) && (ptn <? C16Sites.kawpow_fork_block + C16Sites.kquai_change_hold_interval))
+  || ((C16Sites.sha_equivalent_difficulty_fork_block <=? ptn)
+      && (ptn <? C16Sites.sha_equivalent_difficulty_fork_block + C16Sites.kquai_change_hold_interval)).
+
+Definition qi_finish (l : location) (ptn : N) (st : qi_st) : option (list qi_ev) :=
+  if q_conv st && in_hold ptn then None
+  else if q_conv st || q_wrap st then
+    if q_conv st && q_wrap st then None
+    else Some [EvEtx (if q_wrap st then 2 else 1) 0 (class_of (q_cto st) l) (q_cto st)]
+  else Some [].
+
+Definition wrap_skips (ptn : N) : bool := C16Sites.qi_wrapping_change_block <=? ptn.
+
+(* owners = keys put into `addresses` by the input loop (first 20 bytes of the owners of the spent UTXOs) *)
+Definition qi_process (l : location) (owners outs : list bytes) (data : bytes) (ptn : N) : option (list qi_ev) :=
+  if negb (qi_data_ok data) then None
+  else
+    match qi_loop l data (wrap_skips ptn) (mk_qst owners false false []) 0 outs with
+    | None => None
+    | Some (st, evs) =>
+        match qi_finish l ptn st with
+        | None => None
+        | Some f => Some (evs ++ f)
+        end
+    end.
+
+Definition ev_is_utxo (e : qi_ev) : bool := match e with EvUtxo _ _ => true | _ => false end.
+(* what the harness sees: the UTXOs found under (tx.Hash(), i) for i = 0.., and the returned ETX slice *)
+Definition qi_view (r : option (list qi_ev)) : option (list qi_ev * list qi_ev) :=
+  match r with
+  | None => None
+  | Some evs => Some (filter ev_is_utxo evs, filter (fun e => negb (ev_is_utxo e)) evs)
+  end.
+
+(* ------------------------------------------------------------------ *)
 (* Addresses handed out from STORED / CACHED bytes.
    core/types/transaction_signing.go: Sender, SignerV1.Sender, SignerV1.Equal, sigCache;
    core/types/transaction.go: Transaction.From, SetFrom, Hash, FromChain, AsMessage.
@@ -519,7 +630,8 @@ Inductive input :=
 | IGrind (l : location) (block_number gas cost : N) (prefixes : list (N * N)) (final : bytes)
 | ICreate (l : location) (d0 : bytes) (block_number gas cost : N) (prefixes : list (N * N)) (final : bytes)
 | IQiOut (addr : bytes) (datalen : N) (l : location)
-| ISender (t : txobj) (ops : list sop).       (* one history on one *Transaction object *)
+| ISender (t : txobj) (ops : list sop)        (* one history on one *Transaction object *)
+| IQiTx (l : location) (owners outs : list bytes) (data : bytes) (ptn : N).   (* one whole Qi transaction *)
 
 Inductive obs :=
 | OAddr (class : N) (a : bytes) (zone : location) (qi iquai iqi : bool)   (* class 0 = internal, 1 = external *)
@@ -528,7 +640,8 @@ Inductive obs :=
 | OBool (b : bool)
 | OGrind (r : grind_res)
 | OQi (q : qi_out)
-| OSeq (xs : list sobs).
+| OSeq (xs : list sobs)
+| OQiTx (r : option (list qi_ev * list qi_ev)).
 
 Definition obs_of_res (r : res) : obs :=
   match r with
@@ -581,6 +694,7 @@ Definition eval (i : input) : obs :=
       end
   | IQiOut addr dl l => OQi (qi_output addr dl l)
   | ISender t ops => OSeq (fst (run_ops t st_init ops))
+  | IQiTx l owners outs data ptn => OQiTx (qi_view (qi_process l owners outs data ptn))
   end.
 
 Definition grind_res_eqb (a b : grind_res) : bool :=
@@ -611,6 +725,20 @@ Fixpoint sobs_list_eqb (xs ys : list sobs) : bool :=
   | _, _ => false
   end.
 
+Definition qi_ev_eqb (x y : qi_ev) : bool :=
+  match x, y with
+  | EvUtxo i a, EvUtxo j b => (i =? j) && keqb a b
+  | EvEtx t i c a, EvEtx u j d b => (t =? u) && (i =? j) && (c =? d) && keqb a b
+  | _, _ => false
+  end.
+
+Fixpoint qi_evs_eqb (xs ys : list qi_ev) : bool :=
+  match xs, ys with
+  | [], [] => true
+  | x :: xs', y :: ys' => qi_ev_eqb x y && qi_evs_eqb xs' ys'
+  | _, _ => false
+  end.
+
 Definition obs_eqb (x y : obs) : bool :=
   match x, y with
   | OAddr c a z q iq iqi, OAddr c' a' z' q' iq' iqi' =>
@@ -621,6 +749,8 @@ Definition obs_eqb (x y : obs) : bool :=
   | OGrind a, OGrind b => grind_res_eqb a b
   | OQi a, OQi b => qi_out_eqb a b
   | OSeq a, OSeq b => sobs_list_eqb a b
+  | OQiTx None, OQiTx None => true
+  | OQiTx (Some (u, e)), OQiTx (Some (u', e')) => qi_evs_eqb u u' && qi_evs_eqb e e'
   | _, _ => false
   end.
 
